@@ -350,7 +350,7 @@ Lemma skip_aux_decompose : forall s,
   \/ (skip_aux false s = [] /\ exists p body, s = p ++ semicolon :: body /\ ws_run p /\ Forall (fun c => c <> newline) body).
 Proof.
   (* strong induction through the comment mode *)
-  assert (G : forall n s, (length s <= n)%nat ->
+  assert (G : forall n s, (List.length s <= n)%nat ->
     ((exists p, s = p ++ skip_aux false s /\ ws_run p)
      \/ (skip_aux false s = [] /\ exists p body, s = p ++ semicolon :: body /\ ws_run p /\ Forall (fun c => c <> newline) body))
     /\ ((exists body r, s = body ++ newline :: r /\ Forall (fun c => c <> newline) body /\ skip_aux true s = skip_aux false r)
@@ -360,7 +360,7 @@ Proof.
       + left. exists []. split; [reflexivity | constructor].
       + right. split; constructor.
     - destruct s as [|c r]; [split; [left; exists []; split; [reflexivity | constructor] | right; split; constructor]|].
-      simpl in Hl. assert (Hr : (length r <= n)%nat) by lia. destruct (IH r Hr) as [IHf IHt]. split.
+      simpl in Hl. assert (Hr : (List.length r <= n)%nat) by lia. destruct (IH r Hr) as [IHf IHt]. split.
       + simpl. destruct (is_space c) eqn:Es.
         * destruct IHf as [[p [Hp Hw]]|[He [p [body [Hp [Hw Hb]]]]]].
           -- left. exists (c :: p). split; [simpl; congruence | constructor; assumption].
@@ -368,7 +368,7 @@ Proof.
         * destruct (c =? semicolon) eqn:Ec.
           -- apply N.eqb_eq in Ec. subst c.
              destruct IHt as [[body [r' [Hs [Hb Heq]]]]|[Hb Heq]].
-             ++ assert (Hl' : (length r' <= n)%nat).
+             ++ assert (Hl' : (List.length r' <= n)%nat).
                 { subst r. rewrite app_length in Hr. simpl in Hr. lia. }
                 destruct (IH r' Hl') as [[[p [Hp Hw]]|[He [p [body' [Hp [Hw Hb']]]]]] _].
                 ** left. exists (semicolon :: body ++ newline :: p). split.
@@ -385,7 +385,7 @@ Proof.
         * apply N.eqb_neq in En. destruct IHt as [[body [r' [Hs [Hb Heq]]]]|[Hb Heq]].
           -- left. exists (c :: body), r'. split; [simpl; congruence|]. split; [constructor; assumption | exact Heq].
           -- right. split; [constructor; assumption | exact Heq]. }
-  intros s. apply (G (length s) s). lia.
+  intros s. apply (G (List.length s) s). lia.
 Qed.
 
 Theorem skip_decompose s :
@@ -403,18 +403,16 @@ Proof.
 Qed.
 
 (* position arithmetic of the Context object *)
-Lemma skip_aux_length : forall s b, (length (skip_aux b s) <= length s)%nat.
+Lemma skip_aux_length : forall s b, (List.length (skip_aux b s) <= List.length s)%nat.
 Proof.
   induction s as [|c r IH]; intros b; simpl; [lia|].
   destruct b.
-  - destruct (c =? newline); specialize (IH false); specialize (IHr := IH); try (etransitivity; [apply IH|lia]).
-    all: try (pose proof (IHs := IHr)); try lia.
-    etransitivity; [apply (IHr)|lia].
-  - destruct (is_space c); [etransitivity; [apply IH|lia]|].
-    destruct (c =? semicolon); [etransitivity; [apply IH|lia]|simpl; lia].
+  - destruct (c =? newline); [specialize (IH false) | specialize (IH true)]; lia.
+  - destruct (is_space c); [specialize (IH false); lia|].
+    destruct (c =? semicolon); [specialize (IH true); lia | simpl; lia].
 Qed.
 
-Theorem skip_pos_forward code pos : (pos <= length code)%nat -> (pos <= skip_pos code pos <= length code)%nat.
+Theorem skip_pos_forward code pos : (pos <= List.length code)%nat -> (pos <= skip_pos code pos <= List.length code)%nat.
 Proof.
   intros H. unfold skip_pos, skip.
   pose proof (skip_aux_length (skipn pos code) false) as L. rewrite skipn_length in L. lia.
@@ -487,10 +485,10 @@ Variable un : N -> Z -> res Z.
 Variable bin : N -> Z -> Z -> res Z.
 
 Theorem eval_regroup f e : eval env dot un bin (regroup f e) = eval env dot un bin e.
-Proof. induction e; simpl; congruence. Qed.
+Proof. induction e; simpl; rewrite ?IHe, ?IHe1, ?IHe2; reflexivity. Qed.
 
 Theorem eval_ungroup e : eval env dot un bin (ungroup e) = eval env dot un bin e.
-Proof. induction e; simpl; congruence. Qed.
+Proof. induction e; simpl; rewrite ?IHe, ?IHe1, ?IHe2; reflexivity. Qed.
 
 Theorem eval_group br e : eval env dot un bin (EGroup br e) = eval env dot un bin e.
 Proof. reflexivity. Qed.
